@@ -108,7 +108,10 @@ def _table_check(prop, fam, tier, seed, replay, work, known, t0):
     binp = build_harness(fam["pkg"], work)
     design_stats = []
     if not replay:
-        for (module, cfgfile, workers) in fam.get("design", []):
+        for ent in fam.get("design", []):
+            (module, cfgfile, workers) = ent[:3]
+            if len(ent) > 3 and ent[3] != tier:
+                continue
             cfgtxt = open(os.path.join(SPECS, fam["spec_dir"], cfgfile)).read()
             res = run_tlc(os.path.join(SPECS, fam["spec_dir"]), module, cfgtxt, work, workers=workers, timeout=fam.get("design_timeout", 1800), name=cfgfile[:-4])
             if "No error has been found" not in res["out"]:
